@@ -212,7 +212,9 @@ func (o *FilterOptimizer) optimizeBetweenExpr(e *BinaryOpExpr) *ScanType {
 		canUseRange = false
 	}
 
-	if field == KeyKW && canUseRange {
+	// The evaluator rejects a lower boundary that is not less than the upper one,
+	// such a range must not narrow the scan
+	if field == KeyKW && canUseRange && bytes.Compare(lower, upper) < 0 {
 		return &ScanType{RANGE, [][]byte{lower, upper}}
 	}
 	return &ScanType{FULL, nil}
